@@ -1016,3 +1016,61 @@ pub fn replay(v: &Value) -> (bool, Value) {
     let t = cfg.trace(&path);
     (!t["violation"].is_null(), t)
 }
+
+/// Stateless execution of one schedule on a fresh connection (no explorer, no digest in the
+/// verdict): returns the violation, the observation hash and the number of delivered requests.
+pub fn run_schedule(cfg: &Cfg, acts: &[Act]) -> (Option<(String, String)>, u64, usize) {
+    let mut e = Exec::new(cfg, false);
+    for a in acts {
+        e.step(*a);
+        if e.violation.is_some() || e.terminal {
+            break;
+        }
+    }
+    let obs = util::hash64(&[&e.obs_log]);
+    let n = e.delivered_count;
+    (e.finish_fds(), obs, n)
+}
+
+pub fn schedule_replay(cfg: &Cfg, acts: &[Act]) -> Value {
+    json!({"engine": "connx", "config": cfg.to_json(), "actions": acts.iter().map(|a| enc(*a)).collect::<Vec<_>>(),
+           "actions_readable": acts.iter().map(|a| format!("{:?}", a)).collect::<Vec<_>>()})
+}
+
+/// Stateless execution where the stream arrives in the given segments: each segment is read
+/// until drained (several `try_read`s when it exceeds the space offered), optionally preceded
+/// by an empty read, then the next one arrives. Returns the verdict, observation hash, number
+/// of delivered requests and the action list actually executed (for replays).
+pub fn run_segments(cfg: &Cfg, segments: &[usize], empties: bool) -> (Option<(String, String)>, u64, usize, Vec<Act>) {
+    let mut e = Exec::new(cfg, false);
+    let mut acts = vec![];
+    'outer: for (i, seg) in segments.iter().enumerate() {
+        if empties {
+            let a = Act::Empty((i % 2) as u8);
+            acts.push(a);
+            e.step(a);
+            if e.violation.is_some() {
+                break;
+            }
+        }
+        let mut left = *seg;
+        while left > 0 && !e.queue.is_empty() {
+            let a = Act::Read(left.min(60000) as u16, 0);
+            let before = e.stream_pos;
+            acts.push(a);
+            e.step(a);
+            let took = e.stream_pos - before;
+            if e.violation.is_some() || e.terminal {
+                break 'outer;
+            }
+            if took == 0 {
+                e.violation = Some(("no-progress".into(), "try_read consumed nothing although bytes had arrived and no error was reported".into()));
+                break 'outer;
+            }
+            left -= took.min(left);
+        }
+    }
+    let obs = util::hash64(&[&e.obs_log]);
+    let n = e.delivered_count;
+    (e.finish_fds(), obs, n, acts)
+}
